@@ -45,6 +45,9 @@ type Target interface {
 	// RawConfig assigns both minimum versions without the endpoint guards and persists (keysutil level only);
 	// supported = false when the target has no such entry point.
 	RawConfig(dec, enc int) (cls string, supported bool)
+	// RestoreRaw is the bare library call keysutil.LockManager.RestorePolicy on a storage handle that is not a
+	// transaction (Restore is the endpoint, which runs it inside one); supported = false for endpoint targets.
+	RestoreRaw(blob string, force bool) (cls string, supported bool)
 	Close()
 }
 
@@ -184,6 +187,7 @@ type gen struct {
 	epoch               int
 	faultSeen           bool
 	lastCls             string
+	lastRestoreOp       string // "restore" (endpoint, transactional) or "restoreraw" (bare library call)
 	dead                bool // an operation panicked: the case ends
 	failedFaults        []string // kinds of the operations whose planned put fault fired in this case
 
@@ -235,17 +239,21 @@ func splitArtifact(s string) (verStr, body string, ok bool) {
 	return parts[0], parts[1], true
 }
 
-// faultSig names the storage-fault scenario a post-fault violation is attributed to: a failed restore if there was
-// one (archive and policy are written by two separate puts outside any transaction: known finding F39), else a
-// failed trim (F38, repaired: an incomplete in-memory rollback skewed every later archive access — the signature
-// stays so that the defect is reported if it returns), else the first operation whose put failed.
+// faultSig names the storage-fault scenario a post-fault violation is attributed to: a failed bare library call of
+// RestorePolicy outside a transaction if there was one (two Puts, no atomicity: known finding F39, library call
+// only), else a failed restore through the endpoint (F39 as repaired: the handler opens a transaction — the signature
+// stays so that the defect is reported if it returns), else a failed trim (F38, repaired likewise), else the first
+// operation whose put failed.
 func (g *gen) faultSig() string {
 	if len(g.failedFaults) == 0 {
 		return "fault-planned-but-not-fired"
 	}
-	for _, want := range []string{"restore", "trim"} {
+	for _, want := range []string{"restoreraw", "restore", "trim"} {
 		for _, k := range g.failedFaults {
 			if k == want {
+				if want == "restoreraw" {
+					return "after-failed-bare-restore-call"
+				}
 				return "after-failed-" + want
 			}
 		}
@@ -899,19 +907,28 @@ func (g *gen) opBackup() {
 }
 
 func (g *gen) opRestore() {
+	g.lastRestoreOp = ""
 	if len(g.backups) == 0 {
 		g.opBackup()
 		return
 	}
 	b := 1 + g.rng.Intn(len(g.backups))
 	force := g.rng.Chance(75)
-	cls := g.t.Restore(g.backups[b-1], force)
+	opName := "restore"
+	var cls string
+	if c, ok := g.t.RestoreRaw("", false); g.rng.Chance(40) && ok && c == "probe" {
+		opName = "restoreraw"
+		cls, _ = g.t.RestoreRaw(g.backups[b-1], force)
+	} else {
+		cls = g.t.Restore(g.backups[b-1], force)
+	}
+	g.lastRestoreOp = opName
 	if cls == "" {
 		g.epoch++
 		m := g.bmeta[b-1]
 		g.typ, g.derived, g.convergent = m.typ, m.derived, m.convergent
 	}
-	g.emit(g.polResult(cls), "restore", strconv.Itoa(b), b01(force))
+	g.emit(g.polResult(cls), opName, strconv.Itoa(b), b01(force))
 }
 
 func (g *gen) opDelete() {
@@ -949,8 +966,11 @@ func (g *gen) opFailPut() {
 		kind = "backup"
 		g.opBackup()
 	default:
-		kind = "restore"
 		g.opRestore()
+		kind = g.lastRestoreOp
+		if kind == "" {
+			kind = "backup" // no backup existed yet: opRestore took one instead
+		}
 	}
 	if g.lastCls == "persist:put" {
 		g.failedFaults = append(g.failedFaults, kind)
@@ -984,6 +1004,46 @@ func (g *gen) directedRotateFaultCase(k int) {
 	g.doConfig(ip(1), nil, nil, nil, nil)
 	g.doDecPlain(1)
 	g.opRotate()
+	g.doDecPlain(1)
+}
+
+// directedRestoreFaultCase: a restore (force) over an existing, newer ring whose policy Put (the 3rd of the call) fails
+// after the backup's archive was written; then a rotation and min_decryption_version raised and lowered. raw = the bare
+// library call outside a transaction (finding F39, library part), else the endpoint (transactional since the repair).
+func (g *gen) directedRestoreFaultCase(raw bool) {
+	if _, ok := g.t.RestoreRaw("", false); raw && !ok {
+		return
+	}
+	g.typ, g.derived, g.convergent = "aes256-gcm96", false, false
+	cls := g.t.New(g.typ, false, false)
+	g.epoch++
+	g.emit(g.polResult(cls), "new", g.typ, "0", "0")
+	tr := true
+	g.doConfig(nil, nil, nil, &tr, &tr)
+	g.opBackup()
+	g.opRotate()
+	g.doEnc(0, nil, nil, nil, []byte("version two"))
+	g.t.FailPut(3)
+	g.faultSeen = true
+	g.emit("ok", "failput", "3")
+	name := "restore"
+	if raw {
+		name = "restoreraw"
+		cls, _ = g.t.RestoreRaw(g.backups[0], true)
+	} else {
+		cls = g.t.Restore(g.backups[0], true)
+	}
+	if cls == "" {
+		g.epoch++
+	}
+	g.emit(g.polResult(cls), name, "1", "1")
+	if g.lastCls == "persist:put" {
+		g.failedFaults = append(g.failedFaults, name)
+	}
+	g.t.FailPut(0)
+	g.opRotate()
+	g.doConfig(ip(3), nil, nil, nil, nil)
+	g.doConfig(ip(1), nil, nil, nil, nil)
 	g.doDecPlain(1)
 }
 
@@ -1049,11 +1109,14 @@ func Run(out *vh.Out, rng *vh.Rand, mk func(useCache bool) Target, cases, opsPer
 		g.ctxs = [][]byte{[]byte("ctx-a"), []byte("ctx-b"), r.Bytes(1 + r.Intn(20))}
 		g.aads = [][]byte{[]byte("aad-1"), []byte("aad-2"), r.Bytes(1 + r.Intn(24))}
 		g.msgs = [][]byte{nil, []byte("m"), []byte("hello world"), r.Bytes(1 + r.Intn(48)), r.Bytes(300), r.Bytes(32), r.Bytes(32), r.Bytes(32)}
-		if faults && c < 4 {
-			if c < 2 {
+		if faults && c < 6 {
+			switch {
+			case c < 2:
 				g.directedFaultCase(c + 1)
-			} else {
+			case c < 4:
 				g.directedRotateFaultCase(c - 1)
+			default:
+				g.directedRestoreFaultCase(c == 5)
 			}
 			g.t.Close()
 			continue
